@@ -246,8 +246,6 @@ class ToThreadInExecutor:
         func, ex = _Token("func"), _Token("executor")
         a1, k1 = SVal(C.fresh("a", Val)), SVal(C.fresh("k", Val))
         r = f(func, ex, (a1,), kwargs={"results": k1})
-        if isinstance(r, SAwaitable):
-            raise ContractBindError("to_thread_in_executor is expected to be rewritten to a plain function")
         n = "to_thread_in_executor.post"
         g = C.ghost
         ok_submit = len(g["rie"]) == 1 and g["rie"][0][0] is ex
